@@ -65,6 +65,11 @@ def scenarios(quick):
                                    "getrules 0 0", "cdestroy 0", "scan target=r0 via=mem data=" + yv.hx(b"..abcdefgh.."), "rdestroy 0"])
     add("compile:bytes-file", [], ["compiler 0", "add 0 - " + yv.hx('rule b1 { strings: $a = "bytes" condition: $a }') + " mode=bytes", "add 0 n2 " + yv.hx('rule f1 { condition: filesize > 3 }') + " mode=file",
                                    "getrules 0 0", "cdestroy 0", "rdestroy 0"])
+    # a scan suspended by a not-ready block and never resumed, then a NEW scan on the same scanner while allocations fail (the leftovers of the abandoned scan are
+    # discarded at the start of the new one); and the resumed variant
+    add("scan:after-abandoned-scan", comp(strs) + ["scanner 0 0", "scan target=s0 via=blocks blocks=5,9 nr=0.1.1 abandon=0 data=" + yv.hx(bufs[7][:14])],
+        ["scan target=s0 via=mem data=" + yv.hx(bufs[8]), "scan target=s0 via=mem data=" + yv.hx(bufs[7]), "sdestroy 0"])
+    add("scan:suspended-and-resumed", comp(strs) + ["scanner 0 0"], ["scan target=s0 via=blocks blocks=5,9 nr=0.1.1;0.2.1 data=" + yv.hx(bufs[7][:14]), "scan target=s0 via=mem data=" + yv.hx(bufs[8]), "sdestroy 0"])
     add("init-fini", [], ["fini", "init"])
     return S
 
